@@ -236,3 +236,30 @@ func BadT4Helper(it *t4item) byte {
 	t4recycle(it)
 	return (*it.buf)[0]
 }
+
+// ---- T5 ---------------------------------------------------------------------------------------------------------------
+
+// GoodT5Xor marshals into the open-ended view and reads back only what was written.
+func GoodT5Xor(acc, src []byte) {
+	buf, ok := t3pool.Get().(*[]byte)
+	if !ok {
+		return
+	}
+	defer t3pool.Put(buf)
+	n := copy((*buf)[2:], src)
+	for i, b := range (*buf)[2 : 2+n] {
+		acc[i] ^= b
+	}
+}
+
+// BadT5Xor folds everything behind the header into the accumulator, including what an earlier user left there.
+func BadT5Xor(acc, src []byte) {
+	buf, ok := t3pool.Get().(*[]byte)
+	if !ok {
+		return
+	}
+	defer t3pool.Put(buf)
+	copy((*buf)[2:], src)
+	acc = append(acc[:0], (*buf)[2:]...)
+	_ = acc
+}
